@@ -129,7 +129,7 @@ def run(ctx):
     ctx.ob("C16.2", "%s|empty-line-untrimmed" % PM.read_def, "the end-of-head test is made on the untrimmed line (a whitespace-only line is a malformed header, not the end of the head)",
            n_emp > 0 and not bad_emp, "%s:%d" % (rd.file, rd.line), None if not bad_emp else str(sorted(set(bad_emp))[:3]))
     for h, bb, t in facts.all_calls(lambda t: call_is(t, hd.id) or call_matches(t, r"parse::<common::Header>$")):
-        if h.file == PM.file:
+        if h.file == PM.file or PM.same_file(h.id):
             continue
         ctx.ob("C16.2", "other-header-parse|%s" % h.id, "no other place of the connection code parses client header lines", not h.file.endswith("client.rs") and not h.file.endswith("request.rs"), h.loc(bb), nontrivial=False)
 
